@@ -65,4 +65,15 @@ func init() {
 		"(1) the envelope reader grows its buffer and copies the payload only when not (N>0 and declared size > N) - size N accepted, N+1 rejected with a non-nil error - so a lying length prefix cannot make it allocate; (2) the unary reader and the decompressor fill their buffer through io.LimitReader(src, N+1) whenever N>0 and reject count > N before decoding (N accepted, N+1 rejected), so a decompression bomb buffers at most N+1 bytes; "+
 			"(3) every reader literal built by a protocol NewConn takes readMaxBytes from the params, the params from the config, the config from the option, and every Decompress call passes its own reader's limit.",
 		"actual allocation volume, behaviour per stream position (the same code runs for every position), the error-body reader used for non-200 unary responses (not a message in the property's sense).")
+
+	prop("C03", "Decoding does not depend on how the transport segments the bytes",
+		[]string{"full-read", "copyn-loop"},
+		"(1) no first-party code interprets the count of a single Read: the only direct Read call is a forwarder that returns the callee's count unchanged, the 5-byte prefix is read with a full-read primitive, io.ReadAtLeast must ask for the whole buffer, and all other consumption goes through io.ReadFull/Copy/CopyN/ReadAll/bytes.Buffer.ReadFrom, whose outcome is a function of the byte stream and the final error only; "+
+			"(2) after the payload copy a success return requires the whole declared size (loop until nothing remains, or nil copy error), so 'EOF with the last bytes' and 'EOF on a separate read' take the same exits.",
+		"that net/http and gzip readers honour the io.Reader contract; metadata delivery by net/http.")
+	prop("C04", "A call succeeds only if the peer's end-of-stream marker arrived",
+		[]string{"eof-witness", "clean-eof-only-at-boundary", "unary-second-receive", "copyn-loop", "io-err-checked"},
+		"(1) every client Receive returns an error that may wrap a bare transport EOF only with a terminator witness (special-envelope sentinel, grpc-status present in trailers or trailers-only headers, or complete unary body), and grpcErrorFromTrailer reports OK only when the status header was present; "+
+			"(2) the envelope reader produces an EOF-wrapping error only when zero bytes of a frame were read, never mid-prefix or mid-payload; (3) a short payload never yields a success return; (4) receiveUnaryResponse succeeds only after its second Receive reported EOF on that call's own error; (5) no I/O error result is silently dropped outside enumerated cleanup calls.",
+		"every cut offset x fault kind as a run-time enumeration, 'nothing hangs', behaviour of the k-th failing write.")
 }
